@@ -7,23 +7,31 @@ PROP = dict(
     technique="bounded-exhaustive instantiation of the operator x operand-type grid on the real templates, every length 0..64 (+1000, +10000) over a "
               "value alphabet with all ordered value pairs, scalar long-double oracle; exhaustive expression trees (depth<=2) and left-deep chains "
               "(depth<=6) through a variant-typed interpreter against a std::complex<long double> interpreter with forward error bound; second pass under ASan+UBSan",
-    claim="every operator/operand-type/side/form combination the library accepts (test-compiled once: 110 binary+compound instantiations, 22 rejected at "
-          "compile time) is executed for every length 0..64, 1000 (10000 thorough) on an alphabet {0,-0,+-1,+-0.5,+-3,+-1e-100,+-1e100} (complex: axes, "
+    claim="every operator/operand-type/side/form combination the library accepts (116 binary+compound instantiations, 12 compound forms that would change the element type rejected at "
+          "compile time) is executed for every length 0..64 (0..128 thorough), 1000, 5000, 70000 (10000, 200000 thorough) on an alphabet {0,-0,+-1,+-0.5,+-3,+-1e-100,+-1e100} (complex: axes, "
           "diagonals, 16 mixed points) in which every ordered pair of values occurs, and every element is compared with the scalar definition; all "
           "length mismatches 0..8 x 0..8; copy/move/aliasing; all concatenations of 2..5 parts of length 0..3; all 2^n masks (n<=10 thorough); all index lists of "
-          "length 1..3 over n<=5; all 20.8k expression trees of depth<=2 and all 4*17^d left-deep chains of depth d<=6 (thorough). Exhaustive within these "
-          "bounds, silent outside.",
+          "length 1..3 over n<=5 (1..5 over n<=7 thorough); all 20.8k expression trees of depth<=2 (thorough: 12M of depth 3), all 4*17^d left-deep chains of "
+          "depth d<=7 (thorough) and all sequences of <=6 aliasing statements (a op= a, a op= b, a = a op a, a = a op b, a = b op a, a = -a) on one array variable; "
+          "both tiers contain arrays of 5000, 70000 and 200000 elements for the element-wise operators, concatenation, mask and index-list selection. Exhaustive within "
+          "these bounds, silent outside.",
     note="the set of combinations that compile was established by test-compiling each of the 132 combinations separately (g++ -fsyntax-only) and is hard-coded "
          "in the harness (std::is_invocable cannot see errors inside the operator bodies); a combination the library newly accepts would not be exercised",
     rule="a case is one (expression form, operand types, operator, length[, scalar value]) instantiation run over a whole array, one (n1,n2) mismatch, one "
          "concatenation shape, one block of 64 masks, one index-list length, one expression-tree family or one chain prefix with its whole DFS subtree; "
          "non-trivial = at least two non-zero elements are judged, or the expected outcome is an exception",
     bounds=dict(
-        quick="grid: 110 instantiations x lengths 0..64,1000 (all scalar values at lengths 0-3,5,8,16,33,64,1000, two per other length); mismatches 0..8^2; "
-              "unary -/+ bit-exact at all lengths + extended alphabet; 106 sibling forms x 7/49-letter extended alphabet; copy/move n<=16; aliasing all lengths; concat 2..5 parts x lengths 0..3; zeropad 9x13; masks n<=8; index lists len 1..3, n<=5; trees depth<=2 (20.8k); "
-              "chains depth<=5 (5.7M programs); asan pass: the same",
-        thorough="as quick plus length 10000, masks n<=10, chains depth<=6 (96.5M programs); asan pass: the same with masks n<=8"),
-    deadline=dict(quick=150, thorough=1200),
+        quick="grid: all instantiations the tree accepts (116 binary+compound forms incl. arr_real {+,-,/} std::complex<double>) x lengths 0..64, 1000 and the BIG sizes "
+              "5000 (>4096) and 70000 (>65536) (all scalar values at lengths 0-3,5,8,16,33,64,1000, two per other length); unary -/+ bit-exact at all these lengths + "
+              "extended alphabet; 106 sibling forms + 20 std::complex==cmplx_t equivalence forms x 7/49-letter extended alphabet; mismatches 0..8^2; copy/move n<=16, 5000, 70000; "
+              "aliasing a op= a / a op a at all lengths, a |= a at n<=64, 5000, 70000; concat 2..5 parts x lengths 0..3; BIG concatenation shapes (5000,3) (3,5000) (70000,70000) "
+              "(0,70000,1,5000,2) (4096,4097,65535,65537) (200000,1) through concatenate, |, |=, zeropad, and mixed real|complex (70000,5000); zeropad 9x13; masks n<=8 and 8 mask "
+              "patterns on n=5000, 70000, 200000; index lists len 1..3, n<=5 and 5 index-list shapes (reversed, stride permutation, 70001 repeats, single, every 4097th) on "
+              "n=5000, 70000, 200000; trees depth<=2 (20.8k); chains depth<=5 (5.7M programs); aliasing statement programs (21 statement kinds on one array variable) depth<=4 "
+              "x 3 type pairs (0.6M); asan pass: the same",
+        thorough="as quick plus every length 0..128, 10000 and 200000 in the grid; masks n<=14 (asan 12); index lists len 1..5 over n<=7; depth-3 trees (t2 op t1),(t1 op t2) "
+                 "(12M); chains depth<=7 (1.7G programs; asan pass depth<=6); aliasing statement programs depth<=6 (270M; asan pass depth<=5)"),
+    deadline=dict(quick=150, thorough=3000),
     passes=[dict(name="main"), dict(name="asan", variant="asan", args=["--asan-pass"])],
     assumptions=COMMON_ASSUME + [
         "binary + and - are compared with == against the componentwise IEEE operation (+0/-0 not distinguished there, see the sibling check); real*real, real/real exactly",
@@ -37,8 +45,10 @@ PROP = dict(
         "otherwise only the run-time compile probe observes it",
         "complex products/quotients: textbook formula in long double, 8 eps (|a.re b.re|+|a.im b.im|) per component resp. 8 eps |a|/|b|",
         "division by an exactly zero divisor and program values outside 1e-100..1e100 are outside the domain (executed, not judged)",
-        "combinations rejected at compile time (compound forms that would change the element type; arr_real with std::complex<double> for + - /) "
-        "are recorded in the path histogram, not reported as violations: nothing is executed that could yield a wrong element",
+        "combinations rejected at compile time (compound forms that would change the element type) are recorded in the path histogram, not reported as violations; "
+        "arr_real {+,-,/} std::complex<double> are part of the regular grid when ResultType<real_t,std::complex<double>> is cmplx_t and cmplx_t is not constructible "
+        "from std::vector (compile-time fingerprints of a tree that accepts them), otherwise they are left to the run-time compile probes",
+        "check 'stdc.equiv': every form with a std::complex<double> operand must be bit-identical (NaN==NaN) to the same form with cmplx_t(z), over the grid and the extended alphabet",
         "random expression programs are replaced by all trees of depth<=2 and all left-deep chains of depth<=6 with leaf values from a fixed 16-letter alphabet",
         "the empty index list is the misuse case F7 of C05 and is not generated here",
         "forms the pinned tree rejects at compile time are observed by compiling (and, if accepted, running) a 40-line probe program per form at run time "
